@@ -94,7 +94,7 @@ structure Call where
   deriving DecidableEq, Repr, FromJson, ToJson, Inhabited
 
 inductive Exc where
-  | typeError | attributeError | user | frozenInstance | valueError | other
+  | typeError | attributeError | user | frozenInstance | valueError | notFound | other
   deriving DecidableEq, Repr, FromJson, ToJson, Inhabited
 
 /-! ## Parameters and binding -/
